@@ -10,7 +10,7 @@ func simTimeRFC(at int64) string {
 	return t.Format(time.RFC3339Nano)
 }
 
-var switchKinds = []string{"to", "from", "from_many", "failover_flag", "worker", "auto_kill_mysql", "auto_kill_host", "auto_isolate", "auto_fs_ro"}
+var switchKinds = []string{"to", "from", "from_many", "failover_flag", "worker", "auto_kill_mysql", "auto_kill_host", "auto_isolate", "auto_fs_ro", "auto_unfreezable_replica"}
 
 // addSwitchRequest appends the timeline events of one switch request of the given kind.
 func addSwitchRequest(sp *Spec, r *rng, kind string, at int64) string {
@@ -49,6 +49,24 @@ func addSwitchRequest(sp *Spec, r *rng, kind string, at int64) string {
 		sp.Timeline = append(sp.Timeline, TLEvent{AtMs: at, Kind: "isolate", Host: master, Arg: r.pick("blackhole", "reject"), Fault: true, DurMs: int64(r.pickInt(0, 25000, 50000))})
 	case "auto_fs_ro":
 		sp.Timeline = append(sp.Timeline, TLEvent{AtMs: at, Kind: "fs_ro", Host: master, N: 1, Fault: true})
+	case "auto_unfreezable_replica":
+		// the master dies; one replica - the one that is ahead of the others - stays alive but cannot
+		// be frozen (its read-only / stop-IO statements fail): the quorum must be counted over the
+		// whole published list, old master included
+		sp.Timeline = append(sp.Timeline, TLEvent{AtMs: at, Kind: "kill_mysql", Host: master, Fault: true, DurMs: int64(r.pickInt(0, 30000, 50000))})
+		R := ha[1+r.intn(len(ha)-1)]
+		pre := []string{"SET GLOBAL super_read_only", "STOP SLAVE IO_THREAD", "STOP REPLICA IO_THREAD", "SET GLOBAL"}[r.intn(4)]
+		sp.StmtFail = append(sp.StmtFail, StmtFail{Host: R, Prefix: pre, Errno: 1105, FromMs: at - 500, ToMs: at + int64(r.pickInt(20000, 40000))})
+		if pre == "STOP SLAVE IO_THREAD" {
+			sp.StmtFail = append(sp.StmtFail, StmtFail{Host: R, Prefix: "STOP REPLICA IO_THREAD", Errno: 1105, FromMs: at - 500, ToMs: at + 40000})
+		}
+		for _, h := range ha[1:] {
+			if h != R && r.chance(0.7) {
+				sp.Timeline = append(sp.Timeline, TLEvent{AtMs: at - int64(r.pickInt(300, 900, 2000)), Kind: "fetch_bytes", Host: h, N: 1})
+				sp.Timeline = append(sp.Timeline, TLEvent{AtMs: at + 200, Kind: "fetch_bytes", Host: h, N: 0})
+			}
+		}
+		return "unfreezable=" + R
 	}
 	return ""
 }
